@@ -293,6 +293,19 @@ func (x *Exec) callback(st *State, fr *Frame, fv Val, args []Val, call *ssa.Call
 			pure, mayPanic = true, true
 		}
 	}
+	if x.fc != nil && x.fc.Opts["callback."+name] == "self" && x.topFn != nil {
+		// a recursive closure calling itself through the variable it is stored in: the call is checked
+		// against the contract under verification (requires proved here, ensures assumed); the captured
+		// variables are the same cells, and the callee may have assigned any of them
+		x.note("callback " + name + ": the closure itself (recursive call): own contract applied, captured variables havocked")
+		var pn []string
+		for _, p := range x.topFn.Params {
+			pn = append(pn, p.Name())
+		}
+		x.selfApply = true
+		x.applyContractSig(st, fr, x.fc, x.topFn.Signature, args, pn, in, k)
+		return
+	}
 	x.note("callback " + name + ": results unconstrained" + map[bool]string{true: ", may panic with any value", false: ", assumed to return"}[mayPanic] + map[bool]string{true: ", assumed not to write library state", false: ", heap havocked"}[pure])
 	run := func(s *State) {
 		if !pure {
@@ -445,6 +458,12 @@ func (x *Exec) applyContractSig(st *State, fr *Frame, fc *FuncContract, sig *typ
 	if in != nil {
 		pos = in.Pos()
 	}
+	// a closure of the calling function: the names its contract uses for captured variables are the
+	// caller's own locals
+	closureOfCaller := !x.selfApply && fr != nil && in != nil && strings.HasPrefix(fc.Key, funcKey(fr.fn)+"$") && pkgOf(fr.fn) != nil && fc.Pkg == pkgOf(fr.fn).Path()
+	if closureOfCaller {
+		preEnv.fr, preEnv.pos = fr, pos
+	}
 	for _, r := range fc.Requires {
 		name := fmt.Sprintf("%s/call(%s)@%s/requires#%d", x.fnDisplay(fr), fc.Key, x.callOrd(fr, in), r.Ord)
 		o := x.oblig(name, "precondition", x.propsFor(fr, r), pos, "callee "+fc.Key+" requires "+r.Text)
@@ -493,6 +512,24 @@ func (x *Exec) applyContractSig(st *State, fr *Frame, fc *FuncContract, sig *typ
 			x.assumeFrame(st, pre, fc, vars)
 		}
 	}
+	if closureOfCaller {
+		// the closure may have assigned any variable it captures
+		for a, c := range fr.cells {
+			if a.Heap && c != nil {
+				if _, live := st.cellv[c]; live {
+					st.cellv[c] = x.mkFresh(a.Type().(*types.Pointer).Elem(), a.Comment)
+				}
+			}
+		}
+	}
+	if x.selfApply {
+		x.selfApply = false
+		for _, c := range x.freeCells {
+			if t := x.freeCellTypes[c]; t != nil {
+				st.cellv[c] = x.mkFresh(t, "free_"+c.Name)
+			}
+		}
+	}
 	// caller's frame must include callee's frame
 	if !frameOK && x.fc != nil && x.fc.HasAssign && fr.parent == nil {
 		x.calleeFrameWithinCaller(st, pre, fr, fc, vars, in)
@@ -523,6 +560,9 @@ func (x *Exec) applyContractSig(st *State, fr *Frame, fc *FuncContract, sig *typ
 		}
 	}
 	postEnv := &Env{x: x, st: st, vars: postVars, pkg: calleePkg, old: preEnv}
+	if closureOfCaller {
+		postEnv.fr, postEnv.pos = fr, pos
+	}
 	for _, e := range fc.Ensures {
 		if e.When == "panic" {
 			continue
